@@ -1,7 +1,9 @@
 (* C18 driver.  Requests, one per line (s-expressions, atoms separated by blanks / parentheses):
      db COMP ...                        set the type database; COMP = (u|s F ...), F = (S E) | (A fixed cap strlike E),
                                         E = b | u<w> | i<w> | f<w> | c<tid>
-     run <quirk 0|1> <tid> OP ...       OP = (set i X) | (ufb X) | (ctor X ...)
+     run <quirk 0|1> <tid> OP ...       OP = (set i X) | (ufb X) | (ctor X ...) | (setin (p ...) i X) | (mut (p ...) i j X)
+                                             | (iadd (p ...) i z) | (alias i X j X)        (xop of Gen/PyObj.v)
+     conv DT X                          np.array(X, DT).flatten() of the model -> ok V ... | <exception>
         -> per op  "<outcome> <state>" joined by " ; ", then " | RT <same|differ|raises <exc>|tbfail> | WF <shape 0|1> <strict 0|1>"
      quirk -> 1|0                        arrelem_quirk_gen of Generated/Gen_PyObj.v;   precheck -> 1|0   t_arr_precheck tmpl_gen
      round <w> <hex>  -> hex            f_round;   ofz <int> -> hex|none;   trunc <hex> -> int;   pw <int> -> int|none
@@ -103,6 +105,14 @@ let parse_op (x : sx) : op = match x with
   | L (A "ctor" :: r) -> OCtor (List.map parse_x r)
   | _ -> failwith "op"
 
+let nats l = List.map (function A k -> nat_of_int (int_of_string k) | _ -> failwith "path") l
+let parse_xop (x : sx) : xop = match x with
+  | L [A "setin"; L path; A i; e] -> XSetIn (nats path, nat_of_int (int_of_string i), parse_x e)
+  | L [A "mut"; L path; A i; A j; e] -> XMutElem (nats path, nat_of_int (int_of_string i), nat_of_int (int_of_string j), parse_x e)
+  | L [A "iadd"; L path; A i; A z] -> XIAdd (nats path, nat_of_int (int_of_string i), z_of_string z)
+  | L [A "alias"; A i; a; A j; e] -> XAliasMut (nat_of_int (int_of_string i), parse_x a, nat_of_int (int_of_string j), parse_x e)
+  | _ -> XBase (parse_op x)
+
 let parse_e (s : string) : etype = match s.[0] with
   | 'b' -> EPrim KBool
   | 'u' -> EPrim (KU (z_of_string (tail s))) | 'i' -> EPrim (KS (z_of_string (tail s))) | 'f' -> EPrim (KF (z_of_string (tail s)))
@@ -134,7 +144,7 @@ let rec show_v (v : pyval) : string = match v with
   | PArr (dt, l) -> "(a " ^ show_dt dt ^ String.concat "" (List.map (fun e -> " " ^ show_v e) l) ^ ")"
   | PObj (tid, sl) -> "(o " ^ string_of_int (int_of_nat tid) ^ String.concat "" (List.map (fun e -> " " ^ show_v e) sl) ^ ")"
 
-let show_exc = function ValueError -> "ValueError" | TypeError -> "TypeError" | OverflowError -> "OverflowError" | AttributeError -> "AttributeError"
+let show_exc = function ValueError -> "ValueError" | TypeError -> "TypeError" | OverflowError -> "OverflowError" | AttributeError -> "AttributeError" | IndexError -> "IndexError"
 let show_outcome = function None -> "ok" | Some e -> show_exc e
 
 let db : comp list ref = ref []
@@ -144,8 +154,8 @@ let handle (line : string) : string =
   | A "db" :: comps -> db := List.map parse_comp comps; "ok " ^ (if m_db_ok !db then "1" else "0")
   | A "run" :: A qs :: A tid :: ops ->
       let q = (qs = "1") and tid = nat_of_int (int_of_string tid) in
-      let ops = List.map parse_op ops in
-      let tr = m_trace q !db tid ops in
+      let ops = List.map parse_xop ops in
+      let tr = m_xtrace q !db tid ops in
       let final = match List.rev tr with (o, _) :: _ -> o | [] -> m_default q !db tid in
       let rt = match m_roundtrip q !db tid (nat_of_int 200) final with
         | None -> "tbfail"
@@ -157,6 +167,10 @@ let handle (line : string) : string =
   | [A "round"; A w; A h] -> string_of_n_base 16 (m_round (z_of_string w) (n_of_hex h))
   | [A "ofz"; A z] -> (match m_of_z (z_of_string z) with Some x -> string_of_n_base 16 x | None -> "none")
   | [A "trunc"; A h] -> string_of_z (m_trunc (n_of_hex h))
+  | [A "conv"; A dt; e] ->
+      (match m_conv false !db (parse_dt dt) (parse_x e) with
+       | Ok l -> "ok" ^ String.concat "" (List.map (fun v -> " " ^ show_v v) l)
+       | Raise ex -> show_exc ex)
   | [A "quirk"] -> if m_quirk then "1" else "0"
   | [A "precheck"] -> if m_precheck then "1" else "0"
   | [A "pw"; A w] -> (match pick_width_gen (z_of_string w) with Some o -> string_of_z o | None -> "none")
